@@ -197,6 +197,7 @@ type persistStats struct {
 	TotalBytes     int            `json:"total_input_bytes"`
 	RoundtripFails []persistFail  `json:"roundtrip_failures"`
 	NameFails      []persistFail  `json:"name_failures"`
+	LoadPanics     []persistFail  `json:"load_panics"`
 	Skipped        map[string]int `json:"skipped"`
 	LDRanges       int            `json:"letter_or_digit_ranges"`
 	UpperPairs     int            `json:"upper_pairs"`
@@ -438,7 +439,21 @@ func (g *persistGen) loadCaseExpr(class string, content []byte, expr string) {
 	if err := os.WriteFile(fn, content, 0644); err != nil {
 		die("%v", err)
 	}
-	v, s, w, err := rapid.VerifLoadFailFile(fn)
+	var v string
+	var s uint64
+	var w []uint64
+	var err error
+	func() {
+		defer func() {
+			if r := recover(); r != nil {
+				// loadFailFile must return an error, never panic: a concrete C17 failure (the bytes are the replay)
+				err = fmt.Errorf("PANIC: %v", r)
+				g.st.LoadPanics = append(g.st.LoadPanics, persistFail{id, class, fmt.Sprintf("loadFailFile panics on a %d-byte file: %v", len(content), r),
+					fmt.Sprintf("file content (quoted): %q", string(content))})
+			}
+		}()
+		v, s, w, err = rapid.VerifLoadFailFile(fn)
+	}()
 	_ = os.Remove(fn)
 	if err != nil {
 		g.st.LoadResults[persistErrClass(err)]++
